@@ -43,6 +43,16 @@ HIER = {
     "depth3": ({"P": klass(decl=["a"], body={"a": b(True, I(1))}),
                 "C": klass(bases=["P"], decl=["c"], body={"c": b(True, I(2))}),
                 "E": klass(bases=["C"], decl=["e"], body={"e": b(False), "a": b(True, I(6))})}, ["E"]),
+    "hand_mid_plain": ({"Base": klass(decl=["x", "y"], body={"x": b(False), "y": b(False)}, hand=[("x", 1), ("y", 2)]),
+                        "Mid": klass(bases=["Base"], decl=["m"], body={"m": b(True, I(3))}),
+                        "Leaf": klass(bases=["Mid"], spec=False, body={"x": b(True, I(9))})}, ["Mid", "Leaf"]),
+    "hand_mid_redefault_plain": ({"Base": klass(decl=["x"], body={"x": b(False)}, hand=[("x", 1)]),
+                                  "Mid": klass(bases=["Base"], decl=["m"], body={"m": b(False), "x": b(True, I(5))}),
+                                  "Leaf": klass(bases=["Mid"], spec=False, body={}),
+                                  "Leaf2": klass(bases=["Mid"], spec=False, body={"x": b(True, I(7)), "m": b(True, I(8))})}, ["Mid", "Leaf", "Leaf2"]),
+    "gen_mid_plain": ({"Base": klass(decl=["x"], body={"x": b(True, I(1))}),
+                       "Mid": klass(bases=["Base"], decl=["m"], body={"m": b(True, I(3))}),
+                       "Leaf": klass(bases=["Mid"], spec=False, body={"x": b(True, I(9)), "m": b(True, I(4))})}, ["Leaf"]),
     "spec_plain_spec": ({"P": klass(decl=["a"], body={"a": b(True, I(1))}),
                          "D": klass(bases=["P"], spec=False, body={}),
                          "E": klass(bases=["D"], decl=["e"], body={"e": b(True, I(2))})}, ["E"]),
